@@ -27,5 +27,5 @@ MANIFEST = {
     'text': 'Proof of the order-independence mechanisms: the committed head set is canonical for a set of heads of any size (Verus + lemma), and the orders used to braid and to pair merges '
             'are total orders on command content (Kani, full domains). Convergence over all delivery histories is not machine-checked.',
     'note': 'Mechanism contracts only (PROVED-LOCAL); shares units with C09/C03/C04.',
-    'technique': 'Verus on extracted HeadSet::push + Kani contract harnesses',
+    'technique': 'Verus on extracted HeadSet::push and the extracted ConvergenceMap + Kani contract harnesses',
 }
